@@ -246,6 +246,7 @@ prop('C09', [
     reord.r_reord,
     reord.r_retry,
     handles.r_numbers,
+    models.r_json_reordering,
 ],
     'the retry protocol of _try_to_reorder as a typestate (attempt in '
     'context, requests disabled before reorder(), retry in context, '
